@@ -56,6 +56,15 @@ CHECKS = {
  "C11": dict(technique="metamorphic law monitors between pairs of real solve() runs (affine utility, beta=0, horizon independence, one-hot == deterministic) on small generated and on large consumption-saving models",
              text="Held on K pairs incl. large models (thorough: 300 x 1000 x 8) for which no reference enumeration is feasible.",
              ref="5/C11", note="laws compared between two runs of the real code, 1e-9 relative"),
+ "C04": dict(technique="statistical monitors over recorded panels (Bernstein bounds at 1e-13 per test): per-cell label frequencies, exact zero-probability counts, independence across variables / periods / agents, seed reproducibility; trace checker over every PRNG key handed out",
+             text="Held on K dedicated stochastic models x 20000 (quick) / 200000 (thorough) agents; bounds, does not prove: deviations below ~7.8 sd of a cell are invisible.",
+             ref="5/C04", note="family-wise false-alarm probability < 1e-8 per run; key trace is an in-situ monitor on _generate_simulation_keys"),
+ "C09": dict(technique="history checker: random call histories on one function object vs golden tables from fresh function objects in fresh processes under other PYTHONHASHSEEDs; deep before/after snapshots of model and params",
+             text="Held on K models x histories (repeats, interleavings, 4 leaf types, jit on/off); golden tables agree across hash seeds.",
+             ref="5/C09", note="golden processes execute the same working tree"),
+ "C12": dict(technique="ground-truth-by-construction monitor: all single and pairwise injections of the 22 documented rule violations must be rejected up front with the library's errors; every accepted shape of a feature lattice (and generated models) must solve and simulate; failures keyed by mechanism",
+             text="253 injection sets on the template + random triples on generated models all rejected up front; 21 lattice features alone and in pairs + generated models run to completion except six recorded known findings.",
+             ref="5/C12", note="'accepted => runnable' explored over the lattice, not over all Python objects; known findings in known_findings.json", category="exploration"),
 }
 DEFAULT_NA = "check not built yet in this revision of /verif (planned in DESIGN.md section 5)"
 
